@@ -206,7 +206,16 @@ func (t *Tracker) onCommit(wr *casstore.Write) {
 			rec.Value = string(wr.NewRaw)
 		}
 		if op != nil {
-			op.touchHandle(k.HandleID)
+			total := func(v any) int {
+				n := 0
+				if h, ok := v.(*model.IPAMHandle); ok && h != nil {
+					for _, c := range h.Block {
+						n += c
+					}
+				}
+				return n
+			}
+			op.touchHandle(k.HandleID, total(wr.New())-total(wr.Old()))
 		}
 	}
 	if len(t.Writes) < 4000 {
